@@ -298,6 +298,8 @@ where R: EucRing, for<'a> &'a R: EucRingOps<R> {
         assert!(!self.target[(i, j)].is_zero());
 
         while self.row_nz(i) > 1 || self.col_nz(j) > 1 { 
+            #[cfg(yui_verif)]
+            crate::verif::emit(|| crate::verif::Event::Step { site: "snf_eliminate" });
             let modified = self.eliminate_col(i, j)
                          | self.eliminate_row(i, j);
             if !modified {
@@ -377,6 +379,8 @@ where R: EucRing, for<'a> &'a R: EucRingOps<R> {
         }
 
         'outer: loop { 
+            #[cfg(yui_verif)]
+            crate::verif::emit(|| crate::verif::Event::Step { site: "snf_diag" });
             for i in 0..r-1 { 
                 if !self.diag_normalize_step(i) { 
                     continue 'outer
